@@ -53,7 +53,7 @@ def case_strategy(draw, big=False):
             k = draw(st.sampled_from(['z', 'z', 'skin', 'ins']))
             if k == 'z':
                 l = draw(gen.lumped_load(kinds=('z',)))
-                l['attach'] = draw(st.lists(st.integers(0, npl - 1), min_size=1, max_size=2, unique=True))
+                l['attach'] = draw(st.lists(st.integers(0, npl - 1), min_size=1, max_size=3, unique=draw(st.integers(0, 3)) != 0))     # (a pulse named twice carries the load twice, in series)
                 lds.append(l)
             elif k == 'skin' and not any(x['kind'].startswith('skin') for x in lds):
                 lds.append({'kind': 'skin_c', 'v': gen.r6(draw(gen.logf(1e4, 1e8))), 'tag': None})
@@ -63,7 +63,7 @@ def case_strategy(draw, big=False):
     elif fam == 's':
         for i in range(draw(st.integers(1, 3))):
             l = draw(gen.lumped_load(kinds=('rlc', 'trap', 'laplace')))
-            l['attach'] = draw(st.lists(st.integers(0, npl - 1), min_size=1, max_size=2, unique=True))
+            l['attach'] = draw(st.lists(st.integers(0, npl - 1), min_size=1, max_size=3, unique=draw(st.integers(0, 3)) != 0))     # (a pulse named twice carries the load twice, in series)
             lds.append(l)
     case['loads'] = lds
     case['version'] = draw(st.sampled_from(['9', '12', '13']))
